@@ -512,11 +512,11 @@ func Verif_C10_Value(group, n int) {
 	vC10Judge(text, "Outer", vcOuter(o))
 	// deterministic: the same text again, and the same text when every map is
 	// walked in insertion order (the explored path may walk them in another order)
-	verifsym.Assert(d.ValueLit(*o) == text, "rendering the same value twice gives different text")
+	verifsym.Assert(d.ValueLit(*o) == text, "the rendered text of a value is not deterministic (two renderings differ / it depends on the iteration order of a map)")
 	verifsym.MapOrderBaseline(true)
 	ref := d.ValueLit(*o)
 	verifsym.MapOrderBaseline(false)
-	verifsym.Assert(ref == text, "the rendered text depends on the iteration order of a map")
+	verifsym.Assert(ref == text, "the rendered text of a value is not deterministic (two renderings differ / it depends on the iteration order of a map)")
 	verifsym.Reach("end")
 }
 
